@@ -43,6 +43,15 @@ func init() {
 		}
 		return setOrErr(transform.ConvertQuadkeysAndVerticalIDsToExtendedSpatialIDs(l, atoi(a[1]), atoi(a[2])))
 	})
+	// qv2sp: the spatial-ID variant (one output zoom for both axes)
+	op("qv2sp", func(a []string) string {
+		var l []*object.QuadkeyAndVerticalID
+		for _, it := range split(a[0]) {
+			f := strings.Split(it, ":")
+			l = append(l, object.NewQuadkeyAndVerticalID(atoi(f[0]), atoi(f[1]), atoi(f[2]), atoi(f[3]), 0, 0))
+		}
+		return setOrErr(transform.ConvertQuadkeysAndVerticalIDsToSpatialIDs(l, atoi(a[1])))
+	})
 	op("e2qv", func(a []string) string {
 		r, err := transform.ConvertExtendedSpatialIDsToQuadkeysAndVerticalIDs(split(a[0]), atoi(a[1]), atoi(a[2]), 0, 0)
 		if err != nil {
@@ -193,6 +202,18 @@ func init() {
 						zq = 32
 					case 2:
 						zv = 36
+					case 3: // beyond the largest key the decoder accepts
+						q = 4611686018427388064 + 1 + int64(rng.Intn(3))
+					case 4: // the largest keys of zoom 31 (leading base-4 digits 2 and 3)
+						if qz == 31 {
+							q = int64(1)<<62 - 1 - int64(rng.Intn(1000))
+						}
+					}
+					if qz == 31 && rng.Intn(3) == 0 { // keys of the upper half of the zoom-31 grid
+						q = int64(1)<<61 + rng.Int63n(int64(1)<<61)
+						if rng.Intn(2) == 0 {
+							q += int64(1) << 60
+						}
 					}
 					l = append(l, fmt.Sprintf("%d:%d:%d:%d", zq, q, zv, vi))
 					if rng.Intn(3) == 0 {
@@ -201,6 +222,15 @@ func init() {
 				}
 				if rng.Intn(40) == 0 {
 					outH = 36
+				}
+				if rng.Intn(4) == 0 { // spatial-ID variant: one zoom, bounded expansion on both axes
+					z := zoomNear(qz, 2, 1)
+					if vz > z+4 || vz < z-5 {
+						z = zoomNear(vz, 2, 1)
+					}
+					if (z-qz) <= 3 && (z-vz) <= 6 {
+						do("qv2sp", join(l), s(z))
+					}
 				}
 				do("qv2ext", join(l), s(outH), s(outV))
 			case 1: // extended IDs -> quadkey/vertical groups
@@ -231,7 +261,7 @@ func init() {
 				case 2:
 					outV = 36
 				}
-				idl = maybeCorrupt(ids(l), 0.05)
+				idl = zoomFieldOut(maybeCorrupt(ids(l), 0.05))
 				do("e2qv", join(idl), s(outH), s(outV))
 			default: // extended IDs -> quadkey/altitudekey groups
 				l := randExtList(3)
@@ -282,7 +312,17 @@ func init() {
 				if 25-minV+outA-E > 8 {
 					continue
 				}
-				idl := maybeCorrupt(ids(l), 0.05)
+				idl := zoomFieldOut(maybeCorrupt(ids(l), 0.05))
+				switch rng.Intn(40) {
+				case 0:
+					outQ = 0
+				case 1:
+					outQ = 32
+				case 2:
+					outA = 36
+				case 3:
+					outA = -1
+				}
 				do("e2qa", join(idl), s(outQ), s(outA), s(E), s(off))
 			}
 		}
